@@ -534,6 +534,73 @@ impl Fam for U3 {
     }
 }
 
+/// `Some(None)` and a newtype around `None`: a `None` one wrapper down must be refused like a bare nested `None`
+#[derive(Serialize, Deserialize, PartialEq, Debug, Clone)]
+pub struct NewtO(pub Option<i64>);
+#[derive(Serialize, Deserialize, PartialEq, Debug, Clone)]
+pub struct U4 {
+    pub oo: Option<Option<i64>>,
+    pub nt: NewtO,
+    pub m: BTreeMap<String, Option<Option<i64>>>,
+    pub z: i64,
+}
+impl Fam for U4 {
+    const NAME: &'static str = "U4{oo: Option<Option<i64>>, nt: NewtO(Option<i64>), m: Map<String, Option<Option<i64>>>}";
+    fn all(_tier: Tier) -> Vec<Self> {
+        let mut v = Vec::new();
+        for oo in [None, Some(None), Some(Some(3i64))] {
+            for nt in [NewtO(None), NewtO(Some(0))] {
+                for m in maps(&["k"], &[Some(None), Some(Some(1i64))]) {
+                    v.push(U4 { oo, nt: nt.clone(), m, z: 9 });
+                }
+            }
+        }
+        v
+    }
+    fn unsupported(&self) -> bool {
+        // Option<Option<T>> cannot tell Some(None) from None, a required newtype field cannot be left out
+        self.oo == Some(None) || self.nt.0.is_none() || self.m.values().any(|x| *x == Some(None))
+    }
+}
+/// map keys that are not strings (refused) and unit-variant keys whose serde name is not a bare key (quoted)
+#[derive(Serialize, Deserialize, PartialEq, Eq, PartialOrd, Ord, Debug, Clone)]
+pub enum KeyR {
+    #[serde(rename = "net.ipv4")]
+    Dotted,
+    #[serde(rename = "two words")]
+    Spaced,
+    #[serde(rename = "clé")]
+    NonAscii,
+    #[serde(rename = "")]
+    Empty,
+    Plain,
+}
+#[derive(Serialize, Deserialize, PartialEq, Debug, Clone)]
+pub struct U5 {
+    pub ik: BTreeMap<u32, i64>,
+    pub rk: BTreeMap<KeyR, i64>,
+    pub rt: BTreeMap<KeyR, BTreeMap<String, i64>>,
+    pub z: i64,
+}
+impl Fam for U5 {
+    const NAME: &'static str = "U5{ik: Map<u32, i64>, rk: Map<KeyR, i64>, rt: Map<KeyR, Map<String, i64>>}";
+    fn all(_tier: Tier) -> Vec<Self> {
+        let ks = [KeyR::Dotted, KeyR::Spaced, KeyR::NonAscii, KeyR::Empty, KeyR::Plain];
+        let mut v = Vec::new();
+        for ik in [BTreeMap::new(), BTreeMap::from([(1u32, 2i64)])] {
+            for mask in 0..32u32 {
+                let rk: BTreeMap<KeyR, i64> = ks.iter().enumerate().filter(|(i, _)| mask & (1 << i) != 0).map(|(i, k)| (k.clone(), i as i64)).collect();
+                let rt: BTreeMap<KeyR, BTreeMap<String, i64>> = ks.iter().enumerate().filter(|(i, _)| mask & (1 << ((i + 2) % 5)) != 0).map(|(i, k)| (k.clone(), BTreeMap::from([("x".to_string(), i as i64)]))).collect();
+                v.push(U5 { ik: ik.clone(), rk, rt, z: 1 });
+            }
+        }
+        v
+    }
+    fn unsupported(&self) -> bool {
+        !self.ik.is_empty()
+    }
+}
+
 /// a newtype STRUCT at the root (serializers see through it; the document deserializer must as well)
 #[derive(Serialize, Deserialize, PartialEq, Debug, Clone)]
 pub struct RootNewt(pub Inner);
@@ -637,6 +704,8 @@ pub fn run_family<C: Check>(c: &C, tier: Tier) -> (Acc, Vec<(String, usize)>) {
     run_one::<U1, C>(c, tier, &mut total, &mut sizes);
     run_one::<U2, C>(c, tier, &mut total, &mut sizes);
     run_one::<U3, C>(c, tier, &mut total, &mut sizes);
+    run_one::<U4, C>(c, tier, &mut total, &mut sizes);
+    run_one::<U5, C>(c, tier, &mut total, &mut sizes);
     run_one::<E, C>(c, tier, &mut total, &mut sizes);
     run_one::<Vec<Inner>, C>(c, tier, &mut total, &mut sizes);
     run_one::<Inner, C>(c, tier, &mut total, &mut sizes);
